@@ -7,19 +7,52 @@ from .common import VERIF
 
 ALL = [f"C{i:02d}" for i in range(1, 20)]
 
+DEC_NOTE = "Trusted: TLC 1.8, the TLA+ modules (Decode/Bits/Message/StdMsm/Crc24q), the syntactic table exporter and the value projection (harness/decode_rec.py); float scaling re-computed outside TLC by the identical IEEE operation. Exhaustive only within the stated small scopes; larger inputs are sampled (profiles, seeds)."
+FRM_NOTE = "Trusted: TLC 1.8, Framer.tla/Crc24q.tla, the recording proxy between reader and stream and the scripted stream/socket doubles. Streams are assumed to answer at most the requested size. Exhaustive within the MC alphabet/budget; long real streams are sampled."
+
+
+def c(engine, technique, text, ref, note=None):
+    return dict(engine=engine, technique=technique, text=text, ref=ref, note=note or (DEC_NOTE if engine in ("decode", "message") else FRM_NOTE))
+
+
 CHECKS = {
-    "C03": dict(
-        engine="decode",
-        technique="TLA+ spec of the definition interpreter (Decode.tla): TLC exhaustive on mini-definitions + TLC-judged traces of the real decoder for every identity",
-        text="TLC model-checks the interpreter specification on every payload of 16 mini-definitions covering all constructs; the same scope and a structure-aware corpus over all ~150 real identities are decoded by the real RTCMMessage and every attribute (name, order, type, raw value) is judged by the specification in TLC (DecodeJudge.tla).",
-        note="Trusted: TLC, Decode.tla/Bits.tla, the syntactic table exporter, the value projection; float scaling re-computed outside TLC with the identical IEEE operation. Exhaustive only for the mini scope; real identities are sampled by profiles (extremes, max counts, masks).",
-        ref="3.4, 4/C03",
-    ),
+    "C01": c("framer", "TLA+ spec of the frame-sync state machine (Framer.tla): TLC exhaustive over streams x fault placements; replay of TLC's full state graph into the real reader; TLC-judged traces (FramerTrace.tla)",
+             "TLC explores every stream over an 11-symbol alphabet with adaptive CRC and every short/empty-read placement; every edge of that state graph is replayed on the real RTCMReader; recorded executions over adversarial streams, fault schedules and the repository's logs are validated step by step (request sizes, follow-ups, CRC-24Q recomputed in TLA+), and each delivered object is judged against the payload of its own slice.", "3.1, 4/C01"),
+    "C02": c("framer", "TLC on Framer.tla with a well-formed item environment (NoLoss/DebtSettled) + TLC-judged traces over file, buffered and socket streams",
+             "TLC checks that every item's debt is settled exactly once for all item sequences (incl. zero-length and unknown-type frames); real executions over generated item sequences on three stream kinds conform step by step and deliver exactly the emitted frames.", "3.1, 4/C02"),
+    "C03": c("decode", "TLA+ spec of the definition interpreter (Decode.tla): TLC exhaustive on mini-definitions + TLC-judged traces of the real decoder for every identity",
+             "TLC model-checks the interpreter specification on every payload of 16 mini-definitions covering all constructs; the same scope and a structure-aware corpus over all ~150 real identities are decoded by the real RTCMMessage and every attribute (name, order, type, raw value) is judged by the specification in TLC.", "3.4, 4/C03"),
+    "C04": c("decode", "TLC liveness/deadlock on Decode.tla and Framer.tla + TLC-judged constructor/static-parser inputs and reader executions (foreign exception = rejection)",
+             "TLC shows termination and library-only errors of both specifications; all 4096 numbers x short lengths, structure-aware mutations and arbitrary buffers are judged by DecodeJudge.tla (the spec gives the allowed outcome set), stream iterations in the three error modes are validated by FramerTrace.tla with a watchdog for hangs.", "3.1, 3.4, 4/C04"),
+    "C05": c("framer", "TLC on Framer.tla with a damaging item environment + TLC-judged traces in the three error modes",
+             "TLC checks DebtSettled/RaiseThenResume for every damaged subset of small item sequences and all option combinations; real executions over streams with guaranteed-detectable damage conform step by step (CRC recomputed in TLA+) and report exactly once per damaged frame.", "3.1, 4/C05"),
+    "C06": c("decode", "TLC NoOverrun on Decode.tla (mini-definitions, all payloads) + every whole-byte truncation of complete real messages judged by the spec",
+             "The specification fails on the first field that crosses the end of the payload and never writes an attribute before that test; every truncation of complete messages of every identity is decoded by the real code and judged (rejected iff the spec rejects; accepted decodes compared attribute by attribute).", "3.4, 4/C06"),
+    "C07": c("message", "TLC on the framing operators (MC_Frame) + TLC-judged histories construct/serialize/parse/repr",
+             "Frame() is model-checked on all small payloads and the critical lengths; histories on real messages are judged with the frame rebuilt in TLA+ (CRC-24Q from Crc24q.tla) and the re-parsed snapshot compared with the spec's decode.", "3.5, 4/C07"),
+    "C09": c("decode", "TLC equivalence of declarative and loop-shaped MSM mapping (MC_MsmMaps) + TLC-judged MSM decodes against the pinned StdMsm tables",
+             "All masks up to 5x3 are enumerated for the mapping lemma; every MSM identity x mask shapes (each satellite/signal position, empty, dense) x both label options is decoded by the real code and judged against RTCM 10403.3 numbering/RINEX codes.", "3.4, 4/C09"),
+    "C14": c("message", "TLC action property Frozen on Lifecycle.tla + TLC-judged assignment histories with full snapshots",
+             "The life-cycle spec is model-checked for every name and operation order; on real messages every attempted assignment must raise RTCMMessageError and the post-snapshot must equal the state the spec derives from the payload.", "3.5, 4/C14"),
+    "C15": c("message", "TLC exhaustive over 4096 numbers x 256 sub-types (MC_Identity) + exhaustive header sweep on the real code judged by TLC",
+             "Identity, table dispatch, stub behaviour and the MSM block are finite: TLC enumerates them against the exported tables and every header is constructed on the real code and judged (identity text, stub keeps payload and serialises back, ismsm).", "3.5, 4/C15"),
+    "C16": c("decode", "label-independence is structural in Decode.tla; TLC-judged decodes under option values 0/1/2/True through constructor, static parser and reader",
+             "The spec's attribute list does not depend on the option, only the rendering of signal labels does; the real code is judged in each mode, band labels must be globally consistent, and the objects are compared across options.", "3.4, 4/C16"),
+    "C17": c("framer", "request sizes are option-free in Framer.tla; TLC over all 12 option combinations + TLC-judged traces of one stream under every combination with cross-run clauses",
+             "TLC explores all option combinations; the same stream is run under every combination, each run validated by FramerTrace.tla, request sequences compared across runs, wrong-CRC frames under validate=0 judged by DecodeJudge against their payload.", "3.1, 4/C17"),
+    "C18": c("message", "helper output derived in TLA+ from the spec's attribute list (Message.tla) and compared by TLC with the projected output of parse_msm / parse_4076_201",
+             "All 49 MSM types x mask shapes, 4076_201 with 1-4 layers and degree/order up to 16 (153 coefficients), every other identity, every reserved MSM number and unknown numbers.", "3.5, 4/C18"),
+    "C19": c("message", "TLC injectivity of name rendering over the exported field table (MC_Names) + TLC-judged datadesc/att2idx/att2name on every attribute name of real messages",
+             "Every attribute of the spec carries its base field and indices; the helpers are called on every generated name (plain, _NN, _NN_NN, _NNN, DF/IDF, PRN, CELLPRN, CELLSIG, ExtSatInfo, DF001_n, DF422_n) and judged.", "3.5, 4/C19"),
 }
 
 ENGINES = [
-    dict(name="decode", path="spec/Decode.tla spec/DecodeJudge.tla spec/MC_DecodeMini.tla harness/decode_engine.py",
-         serves_properties=["C03"], kind_free_text="TLA+ small-step spec of the payload-definition interpreter; TLC model checking on mini-definitions; TLC as judge of recorded decodes of the real code"),
+    dict(name="decode", path="spec/Decode.tla spec/DecodeJudge.tla spec/MC_DecodeMini.tla spec/MsmMaps.tla spec/StdMsm.tla harness/decode_engine.py",
+         kind_free_text="TLA+ small-step spec of the payload-definition interpreter; TLC model checking on mini-definitions; TLC as judge of recorded decodes of the real code"),
+    dict(name="message", path="spec/Message.tla spec/Lifecycle.tla spec/MC_Frame.tla spec/MC_Identity.tla spec/MC_Names.tla harness/message_rec.py",
+         kind_free_text="TLA+ operators for framing, identity, immutability and derived views over the decode state; TLC-judged operation histories on real message objects"),
+    dict(name="framer", path="spec/Framer.tla spec/MC_Framer.tla spec/FramerTrace.tla harness/framer_engine.py harness/framer_replay.py",
+         kind_free_text="TLA+ spec of RTCMReader.read as a state machine driven by a faulty stream; TLC model checking, replay of the state graph into the real reader, TLC trace validation"),
 ]
 
 NOT_YET = "check not built yet in this round (planned, see DESIGN.md section 4); no claim is made"
